@@ -75,6 +75,24 @@ def run_world(spec, plan=None, opts=None, extra_argv=(), mode='in',
         argv = [path_opt, root] + oargv + list(extra_argv)
         w.neutral = neutral_words(spec, opts, argv, root)
         argv += w.neutral
+        # the search path as people type it: relative to the directory the
+        # runner is started in - and one of the first tests works in a
+        # scratch directory and does not go back (12 % of the world runs;
+        # layer subprocesses must still be started where the run started)
+        w.relative = False
+        if cwd is None and run_cwd is None and launcher is None and \
+                script_parts is None and not os.environ.get('ZTR_NO_NEUTRAL'):
+            import zlib
+            h = zlib.crc32(json.dumps(
+                [spec.get('prefix'), 'rel',
+                 [str(a).replace(root, '<root>') for a in argv[2:]]],
+                sort_keys=True, default=str).encode())
+            if h % 100 < 12:
+                w.relative = True
+                cwd = os.path.dirname(root)
+                argv[1] = os.path.basename(root)
+                env_extra = dict(env_extra or {},
+                                 ZTR_CHDIR_TESTS=str(1 + (h >> 8) % 3))
         mdir = None
         if markers:
             mdir = os.path.join(root, 'markers-%d' % len(os.listdir(root)))
